@@ -457,7 +457,11 @@ def run_check(pid, module, tier, seed, replay=None):
     # 2. build
     ok, log = lake_build(['pmdriver'])
     if not ok:
-        raise Infra('pmdriver does not build:\n' + log[-4000:])
+        if os.environ.get('VERIF_DEV') and DRIVER_BIN.exists():
+            # development only: another area's model is mid-edit; use the last driver that built
+            print('warning: pmdriver does not build; VERIF_DEV=1 -> using the existing binary', file=sys.stderr)
+        else:
+            raise Infra('pmdriver does not build:\n' + log[-4000:])
     ok, log = lake_build(lean_mods)
     if not ok:
         errs = [ln for ln in log.splitlines() if 'error' in ln][:8]
